@@ -10,17 +10,22 @@ from .common import func_params, value_returns, last_return
 
 PROPERTY = 'C03'
 EXPLANATION = (
-    'Decided from source: (C03.1) the text of a reference passes through a $-remover before it is used as a '
-    'key of the cells map, and the remover itself (decision table over witness spellings: qualified, '
-    'unqualified, quoted sheet, ranges) strips $ from the coordinates only; (C03.2) range materialisation '
-    'visits every member cell: no break/continue/return inside the loops depends on a cell value; (C03.3) a '
-    'nested cell is always evaluated with a context built from its own address (no caller passes its own '
-    'context down) and the context\'s sheet is derived from that address; (C03.4) the name->address map '
-    'handed to the parser holds address strings; (C03.5) range registry keys are written and read with '
-    'the same qualification, a missing cell evaluates to BLANK; (C03.6) ranges are expanded row-major from '
-    'sorted rows and columns; (C03.7) resolve_address and resolve_ranges both unquote the sheet part with resolve_sheet.'
-    ' (C03.8) the reader, interpreted on an abstract workbook that repeats a formula text on two sheets, gives every cell a formula object bound to its own sheet; (C03.1/C03.3) also: XLFormula built for two sheets from one text, and one reference node resolved under two contexts, carry nothing over.'
-    ' (C03.9) a reference workbook with three sheets (one title a prefix of another, one with an apostrophe), defined names, $-variants, ranges with empty cells and cross-sheet chains, loaded through the reader path and evaluated as written in both orders against hand-computed values; a second workbook with the names bound elsewhere in the same process.')
+    "Decided from source: (C03.1) the package's $-remover interpreted on witness spellings (qualified, unqualified, quoted "
+    'sheet, a sheet title containing $, ranges) strips $ from the coordinates only, and the terms of a formula are $-free '
+    "and qualified with the formula's own sheet; (C03.2) range materialisation is total: witness workbooks with one "
+    'populated cell behind 154 empty cells along a row (known finding F06) and down a column, and dense rectangles, '
+    'evaluated as written; (C03.3) an evaluation context takes its sheet from the address it is built for and a reference '
+    'node resolves against the current context (tables on the real constructor / full_address, lemma L3); (C03.4) the '
+    'name->address map handed to the parser holds address strings; (C03.5) a witness workbook with ranges written '
+    'unqualified, qualified and $-absolute, empty members and references to cells the model does not hold: every spelling '
+    'is registered under the key its evaluation uses; (C03.6) resolve_ranges on witness rectangles: row-major, bounds '
+    'inclusive; (C03.7) resolve_ranges / resolve_address / resolve_sheet on plain and quoted titles return the bare title. '
+    '(C03.8) the reader, interpreted on an abstract workbook that repeats a formula text on two sheets, gives every cell a '
+    'formula object bound to its own sheet; (C03.1/C03.3) also: XLFormula built for two sheets from one text, and one '
+    'reference node resolved under two contexts, carry nothing over. (C03.9) a reference workbook with three sheets (one '
+    'title a prefix of another, one with an apostrophe), defined names, $-variants, ranges with empty cells and cross-sheet'
+    ' chains, loaded through the reader path and evaluated as written in both orders against hand-computed values; a second'
+    ' workbook with the names bound elsewhere in the same process.')
 NOT_DECIDED = 'range arithmetic of openpyxl (range_boundaries), values of the cells'
 TRUSTED = ['openpyxl.utils.cell.range_boundaries / get_column_letter behave as documented', 'workbook scenarios: pandas storage of range arrays as row-major rows, numpy on Python numbers (IEEE results, 64-bit integer wrap), dateutil.parser.parse rejecting texts that are no dates, openpyxl address arithmetic, inspect.signature built from the FunctionDef', 'modelled openpyxl workbook (sheetnames, _cells, defined_names)']
 
